@@ -195,8 +195,13 @@ func init() {
 			if !p.OK {
 				out := "rejected: " + strings.ReplaceAll(strings.TrimSpace(p.Diag+p.Panic), "\n", " ⏎ ")
 				or := ""
-				if !strings.HasPrefix(w.Check, "rejected") {
+				switch {
+				case p.Panic != "":
+					or = "WITNESS " + w.ID + ": generator panicked: " + p.Panic
+				case !strings.HasPrefix(w.Check, "rejected"):
 					or = "WITNESS " + w.ID + ": specification rejected: " + out
+				case strings.HasPrefix(w.Check, "rejected:") && !strings.Contains(p.Diag, w.Check[9:]):
+					or = "WITNESS " + w.ID + ": rejected, but not with the expected diagnostic `" + w.Check[9:] + "`: " + out
 				}
 				c.EmitO("# witness "+w.ID, out, or)
 				continue
